@@ -334,6 +334,43 @@ var c09Families = []c09Family{
 		p := append(region, rep([]byte{0xC0, byte(target)}, max(0, n-len(region)-8))...)
 		return append([]byte{1, 1, 2, 3}, v6opt(24, clip64k(p))...)
 	}},
+	{Name: "v6/label-forward-fan", V6: true, Variants: 8, Make: func(n, variant int) []byte {
+		// pointers placed BEFORE their target: many forward pointers to one last name that is terminated, or ends
+		// exactly on the final octet of the buffer without a root, or lies in the middle followed by more pointers;
+		// targets: a short name, a maximal name, a 1-label name
+		var target []byte
+		switch variant % 4 {
+		case 0:
+			target = []byte{1, 'x'}
+		case 1:
+			target = []byte{3, 'f', 'o', 'o', 3, 'b', 'a', 'r'}
+		case 2:
+			target = rep([]byte{1, 'a'}, 200)
+		default:
+			target = rep(append([]byte{63}, make([]byte, 63)...), 192)
+		}
+		if variant/4%2 == 0 {
+			target = append(target, 0) // terminated; otherwise the name ends with the buffer
+		}
+		k := max(1, (n-12-len(target))/2)
+		off := 2 * k
+		var p []byte
+		for i := 0; i < k; i++ {
+			p = append(p, 0xC0|byte(off>>8)&0x3f, byte(off))
+		}
+		p = append(p, target...)
+		if off > 0x3fff {
+			p = p[len(p)-min(len(p), 0x3fff+len(target)):] // keep the pointers addressable (offset ≤ 14 bits)
+			k = (len(p) - len(target)) / 2
+			off = 2 * k
+			p = p[:0]
+			for i := 0; i < k; i++ {
+				p = append(p, 0xC0|byte(off>>8)&0x3f, byte(off))
+			}
+			p = append(p, target...)
+		}
+		return append([]byte{1, 1, 2, 3}, v6opt(24, clip64k(p))...)
+	}},
 	{Name: "v6/relaymsg-in-plain-message", V6: true, Make: func(n, variant int) []byte {
 		// option 9 carrying a plain (non-relay) message that again carries option 9 …: 8 bytes per level
 		inner := []byte{byte(1 + variant%11), 1, 2, 3}
